@@ -390,7 +390,7 @@ func runC15(r *Run, p *Prog) {
 				fmt.Sprintf("between %d and %d decrements: once the last connection has ended the counter is not back at zero, so the next expiry does not stop the service (or stops it early)", lo, hi))
 		}
 		S := ro.servingSide()
-		H := cg.Reach(keysOf(hs), false)
+		H := cg.Reach(withOrigins(keysOf(hs)), false)
 		for _, f := range p.FuncsOf(pkgVarlink) {
 			for _, b := range f.Blocks {
 				for _, in := range b.Instrs {
